@@ -1,4 +1,4 @@
-import QuiverModel.Lemmas.Sys.Wake
+import QuiverModel.Lemmas.Sys.Await
 /-
 C04 — Messages: exactly-once, per-sender FIFO, and no lost wake-ups.
 
@@ -247,6 +247,53 @@ theorem spawn_pairing (n : Nat) (prog : Prog) (req : Nat) (hn : 0 < n) (hwf : Pr
     have := (h.inert w c' hc').2.2 c
     cases c' <;> simp_all [isNotify, cmdNotify]
   · exact h.pair w c
+
+/-! ### await answers -/
+
+/-- an answer carrying the result of `t` for awaiter `a` is on its way (or will be produced: `a` is
+registered at `t`'s worker, or a fresh query for `t` on behalf of `a` is in flight) -/
+def AnswerInFlight (s : Sys) (a t : Pid) : Prop :=
+  (∃ w rs r, Evt.procResults a rs ∈ s.evtQ w ∧ (t, some r) ∈ rs) ∨
+  (∃ w r, pendingHas s a w t r) ∨
+  (∃ w rs r, Cmd.updateAwait a rs ∈ s.cmdQ w ∧ (t, some r) ∈ rs) ∨
+  (∃ w, a ∈ (s.wk w).awaitersFor t) ∨
+  (∃ w ts, Evt.await a ts ∈ s.evtQ w ∧ t ∈ ts) ∨ (∃ w ts, Cmd.queryAwait a ts ∈ s.cmdQ w ∧ t ∈ ts)
+
+/-- the awaiter's current select does not (any longer) wait for `t` -/
+def NotAwaiting (s : Sys) (a t : Pid) : Prop :=
+  ∀ w x, (s.wk w).procs a = some x → x.result.isSome ∨ (alookup x.awaiting t).isNone
+
+/-- Full statement of answer completeness (NOT proved at system level): every completed target a
+worker has reported to an awaiter has been applied at the awaiter's worker, or the answer is still
+on its way, or the awaiter's select no longer waits for that target (its `pending_awaits` entry was
+replaced by a newer select's and the collected answers for the completed one were discarded). -/
+def AwaitAnswerCompleteStatement : Prop :=
+  ∀ (n : Nat) (prog : Prog) (req : Nat), 0 < n → ProgWF prog → ∀ (cs : List Choice) (a t : Pid),
+    (a, t) ∈ (reach n prog req cs).reported →
+      (a, t) ∈ (reach n prog req cs).learned ∨ AnswerInFlight (reach n prog req cs) a t ∨ NotAwaiting (reach n prog req cs) a t
+
+/-- Proved part: the step that the repaired defect F8 concerned.  On EVERY state, handling a further
+ProcessResults event with MERGED answers never loses a result already collected in the pending
+entry of the awaiter: it stays collected or leaves in the UpdateAwaitResults command.
+(`replace_loses_await_answer` below: the replace variant loses it.)  Together with
+`no_lost_wakeup` (the answer chain never dies: `WInv.pend` — every worker the environment still
+expects has its query or its answer in flight) this is what the system-level statement rests on;
+the remaining links (worker → event, event → pending entry, command → `awaiting` map) each move the
+result verbatim. -/
+theorem await_answer_complete_partial (s : Sys) (a : Pid) (new : Results) (w0 : Wid) (t : Pid) (r : Res)
+    (hrouted : (s.env.router a).isSome) (hhas : pendingHas s a w0 t r) (hnew : alookup new t = none) :
+    pendingHas (handleProcResultsWith mergeAnswer s a new) a w0 t r ∨
+    ∃ aw rs, Cmd.updateAwait a rs ∈ (handleProcResultsWith mergeAnswer s a new).cmdQ aw ∧ (t, some r) ∈ rs :=
+  merge_keeps_collected s a new w0 t r hrouted hhas hnew
+
+/-- Every worker the environment still expects an answer from (for the pending await of `p`) has its
+QueryAndAwait still queued or its ProcessResults on the way: the collection always completes. -/
+theorem pending_await_completes (n : Nat) (prog : Prog) (req : Nat) (hn : 0 < n) (hwf : ProgWF prog) (cs : List Choice)
+    (p : Pid) (pa : PendingAwait) (hp : (reach n prog req cs).env.pending p = some pa) (w : Wid) (hw : w ∈ pa.expected) :
+    InFlightFrom (reach n prog req cs) p w := by
+  rcases wakeup_invariant n prog req hn hwf cs with h | h
+  · rw [h.pending] at hp; cases hp
+  · exact h.core.pend p pa hp w hw
 
 /-- `notify_spawn` re-queues the caller iff it was parked in `spawning` (and always hands it the
 pid): the handler on an arbitrary state. -/
